@@ -1015,6 +1015,9 @@ func drawCase(t *rapid.T, profile string) Case {
 	if b.pct(25, "sumtree") {
 		b.sumTree(paths)
 	}
+	if b.pct(30, "override") {
+		b.override(paths)
+	}
 	if b.v31 && b.pct(25, "webhook") {
 		name := fmt.Sprintf("hook%d", b.next())
 		done := false
